@@ -77,6 +77,14 @@ def run(rep, tier):
     rep.rule("R4", "bxcv = Bxy/2 * curl")
     rep.rule("R5", "x-y form: referenced fields exist; refused when non-orthogonal")
     rep.trust("axisymmetry: d/dzeta = 0; cylindrical curl formula")
+    # R0 premise: the derivative functions the curvature formula consumes (dBRdZ, dB2dZ, ...,
+    # d2psi* of both interpolation arms, the DCT derivative summands) are formal derivatives
+    rep.rule("R0", "premise: equilibrium derivative helpers and interpolant derivatives are formal derivatives (rule instances of C18.R1/R2/R4)")
+    from ..report import Premise
+    from . import c18
+    pr = Premise(rep, "R0", "C18")
+    c18.r1_r4(prog, pr)
+    c18.r2(prog, pr)
     for option in ("spline", "dct"):
         for orth in (True, False):
             for psi_decr in (False, True):
